@@ -51,11 +51,14 @@ impl<R: Read> Iterator for ChunkedChars<R> {
         // Read exactly one UTF-8 codepoint (1..=4 bytes) from the underlying reader.
         // No internal buffering: rely on the outer BufReader and decoder.
         let mut buf = [0u8; 4];
-        // Read first byte
-        if let Err(e) = self.reader.read_exact(&mut buf[..1]) {
-            match e.kind() {
-                io::ErrorKind::UnexpectedEof => return None, // true EOF
-                _ => {
+        // Read first byte. `Ok(0)` is the only true end of input: an error reported by the reader -
+        // including one of kind `UnexpectedEof` - must be remembered, not taken for EOF.
+        loop {
+            match self.reader.read(&mut buf[..1]) {
+                Ok(0) => return None, // true EOF
+                Ok(_) => break,
+                Err(e) if e.kind() == io::ErrorKind::Interrupted => continue,
+                Err(e) => {
                     self.err.replace(Some(e));
                     return None;
                 }
